@@ -122,7 +122,9 @@ def codec (st : DState) (args : List String) : DState × String :=
     | none => (st, "bad-op")
   | ["date_enc", y, m, d] =>
     match y.toInt?, m.toInt?, d.toInt? with
-    | some y, some m, some d => (st, s!"ok {Gen.Arith.serialize_date y m d} {DosTime.encodeDate y m d}")
+    | some y, some m, some d =>
+      if Gen.Arith.serialize_date_raises y m d then (st, "err ValueError")
+      else (st, s!"ok {Gen.Arith.serialize_date y m d} {DosTime.encodeDate y m d}")
     | _, _, _ => (st, "bad-op")
   | ["time_enc", h, mi, s] =>
     match h.toNat?, mi.toNat?, s.toNat? with
